@@ -171,6 +171,14 @@ func c14(args []string) error {
 			liveH = append(liveH, h)
 			o.emit(obj{"op": "register", "h": h, "type": t, "prio": prio, "inadd": inadd, "nestUntil": nestUntil, "nestType": nestType})
 		}
+		if s%4 == 3 {
+			// many handlers for one event type, mostly prioritised, in both dispatch phases (handler counts around small powers and
+			// buffer sizes are where list handling goes wrong)
+			t := 1 + rng.Intn(3)
+			for i, k := 0, 4+rng.Intn(14); i < k; i++ {
+				register(t, rng.Intn(4) > 0, rng.Intn(3) == 0)
+			}
+		}
 		for i := 0; i < 2+rng.Intn(4); i++ {
 			register(1+rng.Intn(3), rng.Intn(3) == 0, rng.Intn(3) == 0)
 		}
